@@ -93,3 +93,24 @@ Print Assumptions C08_last_set_survives.
 Theorem C08_outcomes_complete : forall ths r l r', Execution ths r l r' -> In r' (outcomes ths r).
 Proof. exact outcomes_complete. Qed.
 Print Assumptions C08_outcomes_complete.
+
+(* Sender side, UNBOUNDED: any operation sequence whatsoever - any number of sender and receiver incarnations, watermark
+   replays, any interleaving.  If the last registration of the delivery channel (ownership entry) is incarnation i's
+   and i's own cleanup does not follow it, the entry at the end is i's: no cleanup of any other incarnation, however
+   late, removes it. *)
+Theorem C08_delivery_channel_newest_survives : forall pre i post r,
+  no_set (flat_map proj_send post) -> no_del i (flat_map proj_send post) ->
+  r_send (run (pre ++ SetSend i :: post) r) = Some i.
+Proof. exact sender_newest_survives_unbounded. Qed.
+Print Assumptions C08_delivery_channel_newest_survives.
+
+Theorem C08_ownership_newest_survives : forall pre i post r,
+  no_set (flat_map proj_shard post) -> no_del i (flat_map proj_shard post) ->
+  r_shard (run (pre ++ RegShard i :: post) r) = Some i.
+Proof. exact shard_newest_survives_unbounded. Qed.
+Print Assumptions C08_ownership_newest_survives.
+
+(* with the recover guard (fix F5) no sequence of operations, of any length, crashes *)
+Theorem C08_guarded_replays_never_crash : forall l r, all_guarded l -> crashed r = false -> crashed (run l r) = false.
+Proof. exact guarded_never_crashes. Qed.
+Print Assumptions C08_guarded_replays_never_crash.
